@@ -14,4 +14,12 @@ theorem ti_widthToCursor_body_eq_model (width : List A → Int) (chars : List (L
     tiWidthToCursorI genTi width chars cursor offset = some (TextInput.widthToCursor width cursor offset chars 0 0) :=
   widthToCursor_body_eq_model width chars cursor offset
 
+/-- `String()` — what the harness reads the text with — as translated: the concatenation of the content's graphemes. -/
+theorem ti_string_body_eq_model (m : TextInputCl.TIC A) : tiStringI genTi m = some m.content.flatten :=
+  string_body_eq_model m
+
+/-- `CursorPosition()` as translated: the cursor field. -/
+theorem ti_cursorPosition_body_eq_model (m : TextInputCl.TIC A) : tiCursorPositionI genTi m = some m.cursor :=
+  cursorPosition_body_eq_model m
+
 end VaxisModel.Props.C17Body
